@@ -168,8 +168,15 @@ def reimport_check(rep, cases, rust, stats):
     """C11: importing the exported text yields a game with the same position text, hash and legal moves"""
     seen = {}
     for case, outs in zip(cases, rust):
+        nest = []          # True for a legal (checked) push, False for an unchecked one
         for oi, op in enumerate(case):
             o = outs[oi]
+            if op.startswith("push ") and o and o[0] not in ("none", "nogame"):
+                nest.append(op.startswith("push c"))
+            elif op == "undo" and o and o[0] == "ok" and nest:
+                nest.pop()
+            if not all(nest):
+                continue       # the quantifier is over positions after LEGAL move sequences
             if op == "obs" and o and "|" in o[0] and oi + 1 < len(case) and case[oi + 1] == "moves c" and outs[oi + 1]:
                 f = o[0].split("|")
                 # only positions of the game line (nested search positions may be unreachable by legal play)
@@ -183,8 +190,10 @@ def reimport_check(rep, cases, rust, stats):
         if o[0] != ["ok"]:
             # the reader refuses positions that are not backed by the board / impossible material; a position
             # reached by legal play from a sane root is never one of those
-            if all(x.isdigit() or x in "/" or x in "pnbrqkPNBRQK" for x in f.split()[0]):
-                stats["reimports_refused"] += 1
+            # (ofFen_wf / reach_material / RightsInv / EpInv: every game reached from an accepted text by generated moves
+            # has one king a side at the game line, legal material, rights and en-passant square backed by the board)
+            stats["reimports_refused"] += 1
+            rep.violation("impl-vs-spec", f"the engine refuses the FEN it exported itself @ {f}", f"{o[0]}", replay_ops=["new " + f, "obs", "moves c"])
             continue
         g = o[1][0].split("|") if o[1] and "|" in o[1][0] else None
         if g is None or core.fen4(g[0]) != core.fen4(f) or g[1] != h or (o[2] and o[2][0] != ml):
